@@ -379,6 +379,77 @@ fn configs(prop: &str, thorough: bool) -> Vec<(Cfg, Option<usize>)> {
         }
         _ => {}
     }
+    if prop == "C17" {
+        // Relayed messages are DISPATCHED here: what any caller can make the proxy tell itself. The
+        // inner call's sender is the proxy's own address, which is an admin only where the list says so.
+        // actors: A1 A2 S X proxy
+        const P: u8 = 4;
+        let inits: Vec<(&str, Vec<u8>, bool)> = vec![
+            ("A1/mutable", vec![0], true),
+            ("A1/immutable", vec![0], false),
+            ("A1,proxy/mutable", vec![0, P], true),
+            ("A1,proxy/immutable", vec![0, P], false),
+        ];
+        for kind in [Kind::Whitelist, Kind::Subkeys] {
+            for (n, admins, mutable) in &inits {
+                let kn = if kind == Kind::Whitelist { "whitelist" } else { "subkeys" };
+                let mut c = Cfg::base(&format!("C17/{kn}/self-call/{n}"), "C17", kind);
+                c.actors = vec!["A1", "A2", "S", "X", "proxy"];
+                c.dispatch = true;
+                c.init_admins = admins.clone();
+                c.init_mutable = *mutable;
+                c.hmax = if thorough { H0 + 1 } else { H0 };
+                c.admin_callers = vec![0, 3];
+                c.admin_lists = vec![vec![0], vec![0, 1], vec![0, P], vec![3]];
+                c.freeze_callers = vec![0, 3];
+                c.grant_callers = vec![0, 3];
+                c.targets = vec![tg(2, &[0], Some(if thorough { 2 } else { 1 }))];
+                c.inc_amounts = vec![1];
+                c.dec_amounts = vec![1];
+                c.inc_exps = if thorough { vec![ExpA::Unset, ExpA::H(H0 + 1)] } else { vec![ExpA::Unset] };
+                c.perm_callers = vec![0, 3];
+                c.perm_targets = vec![(2, vec![0, 15])];
+                c.exec_callers = vec![0, 1, 2, 3];
+                let sc = |i: Inner| M::SelfCall(i);
+                let mut singles = vec![
+                    sc(Inner::UpdateAdmins(vec![3])),
+                    sc(Inner::UpdateAdmins(vec![])),
+                    sc(Inner::Freeze),
+                    sc(Inner::Exec(vec![sc(Inner::UpdateAdmins(vec![3]))])),
+                ];
+                if kind == Kind::Subkeys {
+                    singles.push(sc(Inner::Inc { spender: 2, denom: 0, amt: Amt(1) }));
+                    singles.push(sc(Inner::SetPerm { spender: 2, flags: 15 }));
+                }
+                if thorough {
+                    singles.push(sc(Inner::UpdateAdmins(vec![0, P])));
+                    singles.push(sc(Inner::Exec(vec![sc(Inner::Exec(vec![sc(Inner::UpdateAdmins(vec![3]))]))])));
+                    singles.push(sc(Inner::Exec(vec![sc(Inner::Freeze), sc(Inner::UpdateAdmins(vec![]))])));
+                    if kind == Kind::Subkeys {
+                        singles.push(sc(Inner::Exec(vec![sc(Inner::Inc { spender: 2, denom: 0, amt: Amt(1) })])));
+                        singles.push(sc(Inner::Exec(vec![sc(Inner::SetPerm { spender: 2, flags: 5 })])));
+                    }
+                }
+                let mut lists: Vec<Vec<M>> = vec![vec![], vec![M::Delegate]];
+                for a in &singles {
+                    lists.push(vec![a.clone()]);
+                }
+                if thorough {
+                    for a in &singles {
+                        for b in &singles {
+                            lists.push(vec![a.clone(), b.clone()]);
+                        }
+                    }
+                } else {
+                    lists.push(vec![singles[2].clone(), singles[0].clone()]);
+                    lists.push(vec![singles[0].clone(), singles[2].clone()]);
+                    lists.push(vec![M::Delegate, singles[0].clone()]);
+                }
+                c.exec_lists = lists;
+                out.push((c, None));
+            }
+        }
+    }
     out
 }
 
@@ -397,8 +468,8 @@ fn describe(prop: &str) -> (&'static str, &'static str) {
             "CanExecute{sender,msg}.can_execute == (Execute{msgs:[msg]} by sender on a copy of the same state returns Ok); a failing query is a violation too",
         ),
         "C17" => (
-            "both contracts, initial admin sets [A1], [A1,A2], [] mutable and [A1], [A1,A2] immutable; UpdateAdmins{[],[A1],[A2],[A1,A2],[X],[A1,A1]}, Freeze, IncreaseAllowance, DecreaseAllowance, SetPermissions, Execute by A1, A2, the subkey and a stranger (who can become admin and be removed again), AdvanceBlock",
-            "reference {admins, mutable} == AdminList after every step; the reported list or flag changes only in an UpdateAdmins (list, to the submitted set) or Freeze (flag true->false) sent by a current admin while mutable, never once frozen or instantiated immutable; every step after which a subkey's Allowance reads higher / re-dated / newly created, or its Permissions differ, was sent by a current admin; a lower allowance comes from an admin or from the subkey's own spending",
+            "both contracts, initial admin sets [A1], [A1,A2], [] mutable and [A1], [A1,A2] immutable; UpdateAdmins{[],[A1],[A2],[A1,A2],[X],[A1,A1]}, Freeze, IncreaseAllowance, DecreaseAllowance, SetPermissions, Execute by A1, A2, the subkey and a stranger (who can become admin and be removed again), AdvanceBlock; self-call configurations (relayed messages dispatched by the kernel; initial sets [A1], [A1,proxy] mutable and immutable): Execute by every caller class carrying WasmMsg::Execute addressed to the proxy itself with UpdateAdmins{[X]}, UpdateAdmins{[]}, Freeze, IncreaseAllowance, SetPermissions, a nested Execute carrying a self-addressed UpdateAdmins (two and, in thorough, three levels), and pairs of these",
+            "reference {admins, mutable} == AdminList after every step; the reported list or flag changes only in an UpdateAdmins (list, to the submitted set) or Freeze (flag true->false) sent by a current admin while mutable, never once frozen or instantiated immutable; every step after which a subkey's Allowance reads higher / re-dated / newly created, or its Permissions differ, was sent by a current admin; a lower allowance comes from an admin or from the subkey's own spending; for dispatched self-addressed messages the sender of the inner call is the proxy's own address, which counts as an admin exactly when the admin list names it",
         ),
         _ => ("", ""),
     }
